@@ -209,6 +209,18 @@ def fs_battery(ck, name, cfg):
                              {"scenario": name, "request": r, "status": st, "health": live.health_status.name})
             if verb == "scan" and st != "success":
                 ck.violation("request-not-carried-out-on-the-named-file:scan", "after create / delete / create of %s/%s, request %s answered %r" % (fo, fi, r, st), {"scenario": name, "request": r, "status": st})
+        # timed folder operations asked for again while the first is still running: still one of the four answers
+        for verb in ("scan", "scan", "restore", "restore", "corrupt", "repair", "restore"):
+            try:
+                resp = sim.apply_request(base + ["folder", fo, verb])
+            except Exception as e:
+                ck.violation("request-raises:file-system:%s" % type(e).__name__, "request %s raised %r" % (base + ["folder", fo, verb], e), {"scenario": name})
+                break
+            ck.evaluations += 1
+            if getattr(resp, "status", None) not in ("success", "failure", "unreachable", "pending"):
+                ck.violation("answer-not-one-of-the-four-statuses:folder-%s" % verb, "request %s (repeated while the first is in progress) was answered %r"
+                             % (base + ["folder", fo, verb], resp), {"scenario": name, "request": base + ["folder", fo, verb]})
+                break
         # (1) a deleted folder that held files, and names that never existed
         req("delete", "folder", fo)
         for tail, tag in ((("restore", "file", fo, fi), "file in a deleted folder"), (("delete", "file", fo, fi), "file in a deleted folder"), (("access", fo, fi), "file in a deleted folder"),
